@@ -307,6 +307,10 @@ func (st *state) exec(op *plan.Op, shared *scripted) (res plan.Res) {
 	for i := 0; i < op.Spin; i++ {
 		runtime.Gosched()
 	}
+	logMark := 0
+	if concMode && isNew && earlyrand.Wrapper != nil {
+		logMark = earlyrand.Wrapper.Len()
+	}
 	c0 := cpuNS()
 	res.T0 = now()
 	func() {
@@ -477,6 +481,34 @@ func (st *state) exec(op *plan.Op, shared *scripted) (res plan.Res) {
 				ev.E = e.Err.Error()
 			}
 			res.Reads = append(res.Reads, ev)
+		}
+		// what the library's own encoder makes of the delivered bytes, in this process and
+		// right now: lets the parent tell "not the source's bytes" from "encoder deviates"
+		if need := int(op.N) + int(op.N)/3; op.Fn == "new" && res.Err == nil && res.Panic == "" && op.N > 0 && op.N < 1000 {
+			var delivered []byte
+			for _, ev := range res.Reads {
+				d, _ := hex.DecodeString(ev.D)
+				delivered = append(delivered, d...)
+			}
+			if len(delivered) >= need {
+				func() {
+					defer func() { recover() }()
+					if own, err := bip39.NewMnemonicByEntropy(delivered[:need], bip39.Language(op.L)); err == nil {
+						res.Out2 = outHex([]byte(own))
+					}
+				}()
+			}
+		}
+	}
+	if concMode && op.Fn == "new" && src == nil && !op.Shared && earlyrand.Wrapper != nil && res.Err == nil && res.Panic == "" && op.N > 0 && op.N < 1000 {
+		// as above, per goroutine: the bytes this goroutine drew during the call
+		if d := earlyrand.Wrapper.FirstSince(goid(), logMark, int(op.N)+int(op.N)/3); d != nil {
+			func() {
+				defer func() { recover() }()
+				if own, err := bip39.NewMnemonicByEntropy(d, bip39.Language(op.L)); err == nil {
+					res.Out2 = outHex([]byte(own))
+				}
+			}()
 		}
 	}
 	if op.Fn == "encslab" {
